@@ -10,6 +10,7 @@ import (
 	"github.com/mimiro-io/datahub/internal/server"
 	"github.com/mimiro-io/datahub/internal/service/store"
 	"github.com/mimiro-io/datahub/internal/service/types"
+	"github.com/mimiro-io/datahub/internal/verifhook"
 	"go.uber.org/zap"
 )
 
@@ -154,6 +155,7 @@ func (c *CompactionWorker) forEntity(dsId types.InternalDatasetID, internalEntit
 
 // for efficiency, we flush deletes in batches
 func flushDeletes(bs store.BadgerStore, ops *compactionInstruction, finalFlush bool, strategy CompactionStrategy) (bool, error) {
+	verifhook.Point("compact.beforeFlush")
 	if !finalFlush && len(ops.DeleteKeys) < strategy.flushThreshold() {
 		return false, nil
 	}
